@@ -564,6 +564,18 @@ func e2eMode(fam string, pickCol func(r *rand.Rand) Col, statePatterns bool) fun
 					} else {
 						pb, pa = genPresent(e.R, ncols), genPresent(e.R, ncols)
 					}
+					if cfg.PadOnes && ncols > 8 && ncols%8 != 0 && k%2 == 0 {
+						// exactly eight columns present and the padding bits of the presence bitmap set: counting the padding as
+						// columns would make the NULL bitmap of every row one byte too long
+						exactly8 := func() []bool {
+							p := make([]bool, ncols)
+							for _, c := range e.R.Perm(ncols)[:8] {
+								p[c] = true
+							}
+							return p
+						}
+						pb, pa = exactly8(), exactly8()
+					}
 					for rw := 0; rw < 1+e.R.Intn(4); rw++ {
 						mk := func(present []bool, used bool) []Cell {
 							cells := make([]Cell, ncols)
@@ -1487,7 +1499,21 @@ func histWriterCases(e *Env) {
 
 // modeC17a: the validity test on arbitrary bytes; header accessors on accepted buffers.
 func modeC17a(e *Env) {
+	ntry := 0
 	try := func(buf []byte, cls string) {
+		// now and then a format description that announces another common header length (4, 13, 27, 255) is decoded in between
+		// - another stream in the same process, a hostile master -: whether a buffer is accepted depends on the buffer alone
+		if ntry++; ntry%7 == 3 {
+			for _, hl := range []byte{4, 13, 27, 255} {
+				l := &Log{Cfg: codecCfg}
+				fe := &Ev{K: "fde", TS: 1}
+				l.layoutEv(fe, 4)
+				b := append([]byte(nil), fe.Bytes...)
+				b[19+2+50+4] = hl
+				safely(func() { replication.NewMysql56BinlogEvent(b).Format() })
+				safely(func() { replication.NewMariadbBinlogEvent(b).Format() })
+			}
+		}
 		buf = append(make([]byte, 0, len(buf)), buf...) // capacity = length, as the connection layer produces its events
 		ev := replication.NewMysql56BinlogEvent(buf)
 		valid := false
